@@ -39,6 +39,7 @@ def kernel(check):
                          words='no repeat, forward: time since delay exactly the cycle duration => position exactly 1.0'))
     check.add(Obligation('C02.K-ended-terminal', S.valid() + [z3.Not(S.panic), S.tag == 2, z3.Not(z3.fpEQ(S.pos, z3.If(S.rev_in, K.ZERO, K.ONE)))], S.inputs, timeout=to,
                          words='Ended(p): p is exactly 1.0 (0.0 when reversing) for every time past the end: the terminal value no longer changes'))
+    K.past_end_obligations(check, S, 'C02', bound, to)
     check.run()
     for ob in check.obligations:
         if ob.result.status == 'sat':
